@@ -109,6 +109,7 @@ type SpecFunc struct {
 	Name   string
 	Params []QVar
 	Result string
+	Reads  []string // heap locations the function depends on: T.f | elems(T) | mapof(T)
 }
 
 type PredDef struct {
@@ -462,6 +463,20 @@ func splitTop(s string) []string {
 }
 
 func parseSpecSig(s string) (*SpecFunc, error) {
+	var reads []string
+	if i := strings.Index(s, " reads "); i >= 0 {
+		reads = strings.Fields(strings.ReplaceAll(s[i+7:], ",", " "))
+		s = s[:i]
+	}
+	sf, err := parseSpecSig0(s)
+	if err != nil {
+		return nil, err
+	}
+	sf.Reads = reads
+	return sf, nil
+}
+
+func parseSpecSig0(s string) (*SpecFunc, error) {
 	m := regexp.MustCompile(`^(\w+)\s*\(([^)]*)\)\s*(\S+)$`).FindStringSubmatch(strings.TrimSpace(s))
 	if m == nil {
 		return nil, fmt.Errorf("bad spec signature %q", s)
